@@ -33,12 +33,12 @@ def gen_cases(tier, seed):
     cases = []
     for i in range(n):
         rng = env.case_rng(ID, i, seed)
-        pool = ['none', 'none', 'l2', 'none', 'none', 'b2', 'none', 's2'][i % 8]
+        pool = ['none', 'none', 'l2', 'none', 'l3', 'b2', 'none', 's2'][i % 8]
         pspec = workloads.gen_problem(rng, family=FAMILIES[i % len(FAMILIES)],
-                                      vectorized=False if pool in ('l2', 'b2') else None)
+                                      vectorized=False if pool in ('l2', 'l3', 'b2') else None)
         nb = [None, 1, None, 3, None, None, 16, None][(i // 2) % 8]
-        if pool in ('l2', 'b2') and nb in (1, 3):
-            nb += 1
+        if pool == 'l3' and nb is None:
+            nb = int(rng.choice([16, 50, 100]))       # not a multiple of the pool size
         cfg = workloads.gen_cfg(rng, pspec, pool=pool, n_batch=nb)
         if cfg['n_batch'] <= 4:
             cfg.update(f_live=0.2, n_eff=100, n_live=30, n_networks=min(cfg['n_networks'], 1))
@@ -139,8 +139,10 @@ class CallLogMonitor:
         self.obs['batches_checked'] += 1
         self.obs['rows_checked'] += len(p)
         self.obs['batches_after_resume'] += int(self.after_resume)
-        if len(p) != s.n_batch:
-            self.bad('calls.batch-size', 'a batch of %d rows was evaluated, n_batch = %d' % (len(p), s.n_batch), s)
+        want = int(self.driver.cfg['n_batch'])
+        if len(p) != want or int(s.n_batch) != want:
+            self.bad('calls.batch-size', 'a batch of %d rows was evaluated (sampler.n_batch = %d), the configured batch '
+                     'size is %d' % (len(p), int(s.n_batch), want), s)
         if p.ndim != 2 or p.shape[1] != s.n_dim or not np.all((p >= 0) & (p < 1)):
             bad_rows = p[~np.all((p >= 0) & (p < 1), axis=1)] if p.ndim == 2 else p
             self.bad('calls.point-outside-unit-cube', 'a point outside [0,1)^d was about to be evaluated: %r'
